@@ -187,6 +187,11 @@ func gridOpenBytes(b []byte) (*document.Document, *document.Table) {
 // gridSynth opens a package whose main part holds a hand-written table with the given
 // numbers of plain cells per row and `gc` grid columns (ragged rows).
 func gridSynth(gc int, cellsPerRow []int) (*document.Document, *document.Table) {
+	return gridSynthX(gc, cellsPerRow, false)
+}
+
+// gridSynthX: with bare, the cells carry no w:tcPr at all (legal: tcPr is optional) and the table no w:tblPr children beyond the width.
+func gridSynthX(gc int, cellsPerRow []int, bare bool) (*document.Document, *document.Table) {
 	base := document.New()
 	base.AddParagraph("x")
 	b, err := base.ToBytes()
@@ -201,7 +206,11 @@ func gridSynth(gc int, cellsPerRow []int) (*document.Document, *document.Table) 
 	for _, k := range cellsPerRow {
 		sb.WriteString(`<w:tr>`)
 		for j := 0; j < k; j++ {
-			sb.WriteString(`<w:tc><w:tcPr><w:tcW w:w="1200" w:type="dxa"/></w:tcPr><w:p><w:r><w:t>` + gridTokText(n) + `</w:t></w:r></w:p></w:tc>`)
+			if bare {
+				sb.WriteString(`<w:tc><w:p><w:r><w:t>` + gridTokText(n) + `</w:t></w:r></w:p></w:tc>`)
+			} else {
+				sb.WriteString(`<w:tc><w:tcPr><w:tcW w:w="1200" w:type="dxa"/></w:tcPr><w:p><w:r><w:t>` + gridTokText(n) + `</w:t></w:r></w:p></w:tc>`)
+			}
 			n++
 		}
 		sb.WriteString(`</w:tr>`)
@@ -263,13 +272,12 @@ func gridDeepCopy(v reflect.Value) reflect.Value {
 
 var gridStartCache = map[string]*document.Table{}
 
+// gridStart builds the start table through the real API (or Open) for every behaviour anew, so that the table
+// under test has exactly the memory layout the library's own constructors give it (backing arrays, capacities,
+// shared or private property objects); a structural copy of a cached instance would hide aliasing between rows.
 func gridStart(k string) *document.Table {
-	tpl, ok := gridStartCache[k]
-	if !ok {
-		_, tpl = gridBuildStart(k)
-		gridStartCache[k] = tpl
-	}
-	return gridDeepCopy(reflect.ValueOf(tpl)).Interface().(*document.Table)
+	_, t := gridBuildStart(k)
+	return t
 }
 
 func gridBuildStart(k string) (*document.Document, *document.Table) {
@@ -319,6 +327,23 @@ func gridBuildStart(k string) (*document.Document, *document.Table) {
 		gridMust(err)
 		gridMust(in2.SetCellText(1, 0, "inner"))
 		return d, t
+	case "in22", "in32":
+		// the table under test is itself a nested table, as AddNestedTable returns it
+		d, outer := gridFresh(1, 1)
+		r := 2
+		if k == "in32" {
+			r = 3
+		}
+		in, err := outer.AddNestedTable(0, 0, &document.TableConfig{Rows: r, Cols: 2, Width: 2400})
+		gridMust(err)
+		n := 1
+		for i := 0; i < r; i++ {
+			for j := 0; j < 2; j++ {
+				gridMust(in.SetCellText(i, j, gridTokText(n)))
+				n++
+			}
+		}
+		return d, in
 	case "n2":
 		d, t := gridFresh(2, 2)
 		_, err := t.AddNestedTable(0, 0, &document.TableConfig{Rows: 1, Cols: 1, Width: 600})
@@ -328,6 +353,8 @@ func gridBuildStart(k string) (*document.Document, *document.Table) {
 		return gridSynth(3, []int{3, 2, 3})
 	case "rag2":
 		return gridSynth(3, []int{2, 3, 3})
+	case "bare3":
+		return gridSynthX(3, []int{3, 3, 3}, true)
 	}
 	panic("grid start: unknown table " + k)
 }
